@@ -22,7 +22,7 @@ LEVEL_TEXT = (
     "(so each consumer saw the finished result of the right command for every reference, in parameter order). "
     "Exhaustive for the small graphs, sampled beyond."
 )
-LEVEL_NOTE = "Observation is through a test library's execute(); built-in commands share Command.run/result, which is what is exercised."
+LEVEL_NOTE = "Term equality is observed through a test library's execute(); execution counts are additionally observed on the built-in commands of generated EEMS models through execute() wrappers."
 RULE = (
     "Cases: {nodes: [refs via A/B/C direct, L list, N nested list], order, build: source|api, steps: run | read i | "
     "read_twice i}. Enumerated: all DAGs n<=3 (thorough n<=4, kinds sampled) x orders x two step scripts; generated: "
@@ -57,6 +57,8 @@ def expected_term(nodes, i, memo=None):
         n = nodes[i]
         if n.get("src"):
             memo[i] = [name(i), n["V"]]
+        elif n.get("mute"):
+            memo[i] = None
         else:
             memo[i] = [name(i), [expected_term(nodes, c, memo) for c in node_refs(n)]]
     return memo[i]
@@ -87,7 +89,7 @@ def source_text(nodes, order):
             args.append("L = [%s]" % ", ".join(name(c) for c in n["L"]))
         if n.get("N") is not None:
             args.append("N = [%s]" % ", ".join("[%s]" % ", ".join(name(c) for c in inner) for inner in n["N"]))
-        lines.append("%s = Node(%s)" % (name(i), ", ".join(args)))
+        lines.append("%s = %s(%s)" % (name(i), "Mute" if n.get("mute") else "Node", ", ".join(args)))
     return "\n".join(lines)
 
 
@@ -99,6 +101,7 @@ def build(case):
         return Program.from_source(source_text(nodes, order), libraries=LIBS)
     prog = Program(libraries=LIBS)
     node_cls = prog.find_command_class("Node")
+    mute_cls = prog.find_command_class("Mute")
     src_cls = prog.find_command_class("Src")
     for i in order:
         n = nodes[i]
@@ -113,7 +116,7 @@ def build(case):
             args["L"] = [name(c) for c in n["L"]]
         if n.get("N") is not None:
             args["N"] = [[name(c) for c in inner] for inner in n["N"]]
-        prog.add_command(node_cls, name(i), args)
+        prog.add_command(mute_cls if n.get("mute") else node_cls, name(i), args)
     return prog
 
 
@@ -133,6 +136,7 @@ def shape_class(case):
         "shared": any(v >= 2 for v in indeg.values()),
         "list_only": bool(list_only & referenced),
         "nested": any(nd.get("N") for nd in nodes),
+        "returns_none": any(nd.get("mute") for nd in nodes),
     }
 
 
@@ -256,9 +260,15 @@ def small_dags(ctx):
                 for j, refs in enumerate(refsets):
                     nodes.append(realise(j, list(refs), kinds[pos:pos + len(refs)]))
                     pos += len(refs)
-                for order in itertools.permutations(range(n)):
-                    for si, steps in enumerate(scripts):
-                        yield {"nodes": nodes, "order": list(order), "build": "source" if si == 0 else "api", "steps": steps}
+                variants = [nodes]
+                for m in range(n):  # the same graph with command m returning None
+                    variants.append([dict(nd, mute=True) if k == m else nd for k, nd in enumerate(nodes)])
+                for vi, vnodes in enumerate(variants):
+                    for order in itertools.permutations(range(n)):
+                        for si, steps in enumerate(scripts):
+                            if vi and (si + sum(order[:1]) + vi) % 2:
+                                continue  # half of the (order, script) pairs for the None-returning variants
+                            yield {"nodes": vnodes, "order": list(order), "build": "source" if si == 0 else "api", "steps": steps}
 
 
 @st.composite
@@ -267,7 +277,7 @@ def dag_cases(draw):
     nodes = []
     for j in range(n):
         if j == 0 or draw(st.integers(0, 5)) == 0:
-            nodes.append({"src": True, "V": j} if draw(st.booleans()) else {})
+            nodes.append({"src": True, "V": j} if draw(st.booleans()) else ({"mute": True} if draw(st.integers(0, 3)) == 0 else {}))
             continue
         node = {}
         cand = st.integers(0, j - 1)
@@ -280,6 +290,8 @@ def dag_cases(draw):
             node["L"] = draw(st.lists(pick, max_size=4))
         if draw(st.integers(0, 2)) == 0:
             node["N"] = draw(st.lists(st.lists(pick, max_size=3), max_size=3))
+        if draw(st.integers(0, 5)) == 0:
+            node["mute"] = True
         nodes.append(node)
     order = list(draw(st.permutations(list(range(n)))))
     steps = draw(st.lists(st.one_of(st.just("run"), st.tuples(st.sampled_from(["read", "read_twice"]), st.integers(0, 40)).map(list)),
@@ -289,9 +301,66 @@ def dag_cases(draw):
     return {"nodes": nodes, "order": order, "build": draw(st.sampled_from(["source", "api"])), "steps": steps}
 
 
-PARTS = {"dag": check_case}
+# ----------------------------------------------------------------------------------- built-in commands
+
+def check_builtin(model, rec):
+    """The same claim observed on the built-in commands: every command of a generated EEMS model executes exactly
+    once during run(), and a second run() or result reads execute nothing."""
+    import os
+    import shutil
+    import tempfile
+
+    from mpilot.program import Program
+
+    from ..gen import models as M
+    from . import c12
+
+    c12.install_wrappers()
+    tmp = tempfile.mkdtemp(prefix="vcheck-c01-")
+    try:
+        M.write_table(model, os.path.join(tmp, "input.csv"))
+        text = M.source(model)
+        del c12.EXEC_LOG[:]
+        try:
+            prog = Program.from_source(text, working_dir=tmp)
+            prog.run()
+        except Exception as exc:
+            rec.exclude("model_does_not_run:%s" % type(exc).__name__)
+            return []
+        own = {}
+        for cls_name, result_name in c12.EXEC_LOG:
+            if type(prog.commands[result_name]).__name__ == cls_name:
+                own[result_name] = own.get(result_name, 0) + 1
+        fails = []
+        names = [n["name"] for n in model["nodes"]]
+        bad = [n for n in names if own.get(n, 0) != 1]
+        if bad:
+            fails.append(Failure("builtin:execution_count", "%s executed %d times\n%s" % (bad[0], own.get(bad[0], 0), text)))
+        before = len(c12.EXEC_LOG)
+        prog.run()
+        for n in names:
+            prog.commands[n].result
+        if len(c12.EXEC_LOG) != before:
+            fails.append(Failure("builtin:executes_after_run", "%r\n%s" % (c12.EXEC_LOG[before:][:4], text)))
+        indeg = {}
+        for nd in model["nodes"]:
+            for i in set(nd.get("inputs", [])):
+                indeg[i] = indeg.get(i, 0) + 1
+        rec.label("builtin_model")
+        if any(v >= 2 for v in indeg.values()):
+            rec.nontrivial_case(["builtin", model])
+            rec.label("builtin_shared_intermediate")
+        return fails
+    finally:
+        shutil.rmtree(tmp, ignore_errors=True)
+
+
+PARTS = {"dag": check_case, "builtin": check_builtin}
 
 
 def run_shard(ctx, rec):
+    from ..gen import models as M
+
     drive_enum(ctx, rec, "dag", small_dags(ctx), check_case, exhaustive=True)
     drive(ctx, rec, "dag", dag_cases(), check_case, ctx.n(3000, 80000))
+    drive(ctx, rec, "builtin", M.typed_models(max_nodes=8, clean=True), check_builtin, ctx.n(600, 15000))
